@@ -117,6 +117,20 @@ pub fn giant_cells(a: &Args, rep: &mut Report, label: &str, quick: &[usize], tho
 }
 
 
+/// Wedge inputs (vcore::case::wedge_case): one pair of generators 1e-6 .. 1e-5 box widths apart among a few ordinary
+/// ones in a cubic box: nearly parallel adjacent faces, thin wedges, badly conditioned (but decidable) vertices.
+pub fn wedge_cells(a: &Args, rep: &mut Report, label: &str, quick: u64, thorough: u64, f: impl Fn(&Case, &mut Report) + Sync) {
+    if a.leg.as_deref().map_or(false, |l| l != "relcheck" && l != "norayon") {
+        return;
+    }
+    let n = ncases(a, quick, thorough);
+    run_parallel(rep, n, budget(a, 100., 900.), |k, rep| {
+        let c = vcore::case::wedge_case(label, &a.tier, a.seed, k);
+        f(&c, rep);
+        rep.count("wedge_inputs", 1);
+    });
+}
+
 pub fn run(a: &Args, rep: &mut Report) {
     match a.id.as_str() {
         "C01" => c01(a, rep),
@@ -349,6 +363,7 @@ fn c01(a: &Args, rep: &mut Report) {
         one_c01("C01", &c, rep);
     });
     giant_cells(a, rep, "C01", &[3000], &[3000, 12000, 12000], |c, rep| one_c01("C01", c, rep));
+    wedge_cells(a, rep, "C01", 1500, 20000, |c, rep| one_c01("C01", c, rep));
 }
 
 fn one_c02(prop: &str, c: &Case, rep: &mut Report) {
@@ -462,4 +477,5 @@ fn c04(a: &Args, rep: &mut Report) {
         one_c04("C04", &c, rep);
     });
     giant_cells(a, rep, "C04", &[3000, 12000], &[3000, 12000, 25000, 40000], |c, rep| one_c04("C04", c, rep));
+    wedge_cells(a, rep, "C04", 3000, 40000, |c, rep| one_c04("C04", c, rep));
 }
